@@ -360,6 +360,10 @@ class Layout:
             elif issubclass(Klass, Component):
                 # init all dimensions to 0, they will be loaded and assigned after load
                 kwargs = dict.fromkeys(Klass.DIMENSION_NAMES, 0)
+                if "modArea" in kwargs:
+                    # unlike the other dimensions modArea is None unless given; a column that
+                    # is None everywhere is not stored, so 0 would survive the load
+                    kwargs["modArea"] = None
                 kwargs["material"] = material
                 kwargs["name"] = name
                 kwargs["Tinput"] = temperatures[0]
